@@ -133,7 +133,7 @@ func (t *SimTransport) dialFrom(network string, local net.Addr, address string) 
 		lport = 0
 		_ = la.Port
 	}
-	c, err := t.N.Dial(t.Role+"-out", &net.TCPAddr{IP: lip, Port: lport}, &net.TCPAddr{IP: ip, Port: port}, 30*time.Second)
+	c, err := t.N.Dial(t.Role+"-out", &net.TCPAddr{IP: lip, Port: lport}, &net.TCPAddr{IP: ip, Port: port}, 0)
 	if err != nil {
 		return nil, err
 	}
